@@ -1876,6 +1876,13 @@ impl<A: Flavour> Case<A> {
   }
 }
 
+/// How many mappings of `path` this process still has (`/proc/self/maps`; 0 where that file cannot be read): after the
+/// last arena value of a file-backed case is gone there must be none, whatever the mode and however the file ended.
+fn mappings_of(path: &Path) -> usize {
+  let Some(p) = path.to_str() else { return 0 };
+  std::fs::read_to_string("/proc/self/maps").map(|m| m.lines().filter(|l| l.contains(p)).count()).unwrap_or(0)
+}
+
 /// First tokens of the lines that need an arena (answered `r=closed` while the case is closed).
 const ARENA_OPS: [&str; 43] = [
   "alloc_bytes", "alloc_bytes_owned", "alloc_aligned", "alloc_aligned_owned", "alloc_t", "alloc_t_owned",
@@ -1993,7 +2000,7 @@ impl Session {
         // `um` = how many times the backing memory was REALLY released meanwhile (Hook::unmount): must be 1
         let before = seq_hook::unmounts();
         self.case = None;
-        format!("r=ok um={} {}", seq_hook::unmounts() - before, sig())
+        format!("r=ok um={} mp={} {}", seq_hook::unmounts() - before, mappings_of(&path), sig())
       }
       "close_last" => {
         argc(2)?;
@@ -2006,7 +2013,7 @@ impl Session {
           return Some("r=nohandle".to_string());
         }
         self.case = None;
-        format!("r=ok um={} {}", seq_hook::unmounts() - before, sig())
+        format!("r=ok um={} mp={} {}", seq_hook::unmounts() - before, mappings_of(&path), sig())
       }
       "reopen" => {
         if !closed {
